@@ -59,6 +59,7 @@ typedef cds::urcu::gc<cds::urcu::general_instant<std::mutex, bk>> GPI;
 typedef cds::urcu::gc<cds::urcu::general_buffered<cds::urcu::general_buffered<>::buffer_type, std::mutex, bk>> GPB;
 typedef cds::urcu::gc<cds::urcu::general_threaded<cds::urcu::general_threaded<>::buffer_type, std::mutex, cds::urcu::dispose_thread<cds::urcu::general_threaded<>::buffer_type>, bk>> GPT;
 typedef cds::urcu::gc<cds::urcu::signal_buffered<cds::urcu::signal_buffered<>::buffer_type, std::mutex, bk>> SHB;
+static const bool s_post_store = (vs::g_post_store_points = true);   // see vsched.h
 DRV_VARIANT(v_gpi, "gpi") { rcu_variant<GPI>(P, [] { return std::unique_ptr<GPI>(new GPI); }); }
 #define CAPV(ID, NAME, T, CAP) DRV_VARIANT(ID, NAME) { rcu_variant<T>(P, [] { return std::unique_ptr<T>(new T(CAP)); }); }
 CAPV(v_gpb1, "gpb_cap1", GPB, 1)
